@@ -62,7 +62,30 @@ func genReply(r *gen.Rand, buf int) resp.V {
 	return resp.GenScalar(r, marksFor(buf))
 }
 
+var boundaries = streamBoundaries()
+
+// the deterministic boundary sweep; types that streamTo hands to readNextMessage are not given the lengths a
+// decoder trusting them would try to allocate (this observer has no sandbox)
+func streamBoundaries() []resp.Boundary {
+	var out []resp.Boundary
+	for _, b := range resp.Boundaries() {
+		streamTyp := b.Typ == '$' || b.Typ == '=' || b.Typ == ';'
+		if streamTyp || !b.MidRange() {
+			out = append(out, b)
+		}
+	}
+	return out
+}
+
 func genCase(r *gen.Rand, i int) any {
+	if i < 2*len(boundaries) { // deterministic: the same on every run and for every seed; with and without a failing writer
+		b := boundaries[i/2]
+		budget := -1
+		if i%2 == 1 {
+			budget = 2
+		}
+		return Case{Op: "mal", Input: b.Input, Buf: []int{32, 64, 4096}[(i/2)%3], Budget: budget, Sizes: [][]int{nil, {1}, {3, 7}}}
+	}
 	buf := gen.Pick(r, bufSizes)
 	c := Case{Buf: buf, Sizes: genChunkings(r), Budget: -1}
 	v := genReply(r, buf)
